@@ -617,3 +617,44 @@ func (t *SchTy) Crossing() bool {
 	}
 	return false
 }
+
+// AssignNodeSafe: the generated builders of t take AssignNode(foreign tree) exactly like the plain call
+// sequence.  The generated AssignNode copies a foreign node without calling BeginMap / BeginList (known
+// defect gen_assignnode_*): a typed map is then never allocated (assignment to entry in nil map) and a
+// recursive value behind a Maybe (optional / nullable field, nullable list or map value) has no target
+// (nil dereference, or a node that panics when read).  Schemas free of both shapes are safe, and for
+// them the AssignNode route is held to the model like every other route.
+func (t *SchTy) AssignNodeSafe() bool {
+	scalar := func(x *SchTy) bool {
+		switch x.K {
+		case 'B', 'I', 'D', 'S', 'Y', 'K':
+			return true
+		}
+		return false
+	}
+	switch t.K {
+	case 'M':
+		return false
+	case 'L':
+		if t.Nul && !scalar(t.Elem) {
+			return false
+		}
+		return t.Elem.AssignNodeSafe()
+	case 'R':
+		for _, f := range t.Fields {
+			if (f.Opt || f.Nul) && !scalar(f.T) {
+				return false
+			}
+			if !f.T.AssignNodeSafe() {
+				return false
+			}
+		}
+	case 'U':
+		for _, m := range t.Members {
+			if !m.T.AssignNodeSafe() {
+				return false
+			}
+		}
+	}
+	return true
+}
